@@ -12,6 +12,10 @@
       notifyWorkers (first atom of Take / TakeWithTimeout / Poll / GetChannel):
                  ⟨RLock; try-send token; RUnlock⟩                     notify        (needs no writer)
       Take / receive on GetChannel():  ⟨block in receive⟩ recvWait ; ⟨receive head⟩ recvTake
+      TakeWithTimeout: notify ; recvWait ; ( recvTake | ⟨timer fires: leave the select without a value⟩ recvTimeout )
+                 — a Go `select` commits to exactly one ready case, so a waiter is consumed either by a delivery
+                 (recvTake / a handoff) or by the timeout, never by both; time is nondeterminism: recvTimeout is
+                 enabled whenever somebody waits
       Poll:      ⟨try-receive⟩  tryRecv (head)  |  pollEmpty → ErrQueueIsEmpty (only when chan = [])
       loader:    ⟨receive token⟩ loaderWake ; ⟨Lock⟩ loaderLock ; loop { ⟨pool.Count() > 0; x := pool.Poll()⟩ loaderPoll ;
                  ⟨try-send x: ok⟩ loaderSend / loaderHandoff  |  ⟨failed: pool.Unshift x; leave⟩ loaderUnshift } ;
@@ -48,7 +52,7 @@ def init (c b : Nat) : St := ⟨c, b, [], [], none, false, .free, .waiting, 0, [
 
 inductive Act
   | offerLock (v : Nat) | offerChan (v : Nat) | offerHandoff (v : Nat) | offerFull (v : Nat) | offerPool (v : Nat)
-  | notify | recvWait | recvTake | tryRecv | pollEmpty
+  | notify | recvWait | recvTake | recvTimeout | tryRecv | pollEmpty
   | loaderWake | loaderLock | loaderPoll | loaderSend | loaderHandoff | loaderUnshift | loaderDone
 deriving DecidableEq, Repr
 
@@ -81,6 +85,8 @@ def step (s : St) : Act → Option St
     match s.chan with
     | x :: rest => if 0 < s.waiters then some { s with chan := rest, waiters := s.waiters - 1, delivered := s.delivered ++ [x] } else none
     | [] => none
+  | .recvTimeout =>      -- TakeWithTimeout: the `time.After` branch of the select fires instead of the receive
+    if 0 < s.waiters then some { s with waiters := s.waiters - 1 } else none
   | .tryRecv =>
     match s.chan with
     | x :: rest => some { s with chan := rest, delivered := s.delivered ++ [x] }
@@ -203,7 +209,7 @@ def schedStep (m : Sched) (tok : String) : Sched × String :=
     let s1 := stepD m.s .notify
     match s1.chan with
     | x :: _ => ({ m with s := stepD (stepD s1 .recvWait) .recvTake }, s!"ok {x}")
-    | [] => ({ m with s := s1 }, "timeout")
+    | [] => ({ m with s := stepD (stepD s1 .recvWait) .recvTimeout }, "timeout")
   | ["T"] =>
     if inpass then (m, "skip") else
     match m.s.chan with
@@ -378,6 +384,52 @@ def stressCase (toks : List String) : String :=
     (List.range p).all (fun t => ofProducer t m.s.delivered == (List.range n').map (fun i => t * 100000 + i))
   if okAll then s!"ok accepted={p * n} delivered={p * n}" else "viol model-stranded"
 
+/-! ### ChannelQueue alone under concurrent producers / consumers: `chqstress cap= p= k= n= mode= seed=`
+
+    The model runs a scaled-down instance on the channel substrate `Ch` under a seeded scheduler: a producer's
+    send is a `chTrySend` (a blocked `Put` / a retried `Offer` / `PutWithTimeout` = the send happens when there is
+    room), a consumer's receive a `chTryRecv`; with capacity 0 a send is a rendezvous with a receiver. -/
+
+structure ChSim where
+  ch : Ch
+  todo : List (List Nat)
+  got : List Nat
+  rng : Nat
+
+def chSimStep (m : ChSim) : ChSim :=
+  let rng := lcg m.rng
+  let m := { m with rng := rng }
+  if (rng / 65536) % 2 = 0 then
+    let np := m.todo.length
+    if np = 0 then m else
+    let i := (rng / 1048576) % np
+    match m.todo.getD i [] with
+    | [] => m
+    | v :: rest =>
+      if m.ch.cap = 0 then { m with todo := m.todo.set i rest, got := m.got ++ [v] }   -- rendezvous
+      else
+        let r := chTrySend m.ch v
+        if r.2 then { m with ch := r.1, todo := m.todo.set i rest } else m
+  else
+    match chTryRecv m.ch with
+    | (ch', .val x) => { m with ch := ch', got := m.got ++ [x] }
+    | _ => m
+
+def chSimLoop : Nat → ChSim → ChSim
+  | 0, m => m
+  | fuel + 1, m =>
+    if m.todo.all (·.isEmpty) && m.ch.buf.isEmpty then m else chSimLoop fuel (chSimStep m)
+
+def chqStressCase (toks : List String) : String :=
+  let cap := field toks "cap"; let p := field toks "p"; let n := field toks "n"; let seed := field toks "seed"
+  if p = 0 then "bad-case" else
+  let n' := min n (max 1 (120 / p))
+  let todo := (List.range p).map (fun t => (List.range n').map (fun i => t * 100000 + i))
+  let m := chSimLoop (p * n' * 64 + 4096) ⟨⟨cap, [], false⟩, todo, [], seed + 1⟩
+  let okAll := m.todo.all (·.isEmpty) && m.ch.buf.isEmpty && m.got.length == p * n' &&
+    (List.range p).all (fun t => ofProducer t m.got == (List.range n').map (fun i => t * 100000 + i))
+  if okAll then s!"ok accepted={p * n} delivered={p * n}" else "viol model-stranded"
+
 /-- protocol entry point -/
 def handle (line : String) : String :=
   let (head, body) := splitHead line
@@ -385,6 +437,7 @@ def handle (line : String) : String :=
   match toks with
   | "sched" :: _ => schedCase toks body
   | "chq" :: _ => chqCase toks body
+  | "chqstress" :: _ => chqStressCase toks
   | "stress" :: _ => stressCase toks
   | _ => "bad-case"
 
@@ -431,7 +484,17 @@ def trackObs (cap b : Nat) (t : Track) (op obs : String) : Track :=
     | ["hang"] => flag t "hang"
     | ["blocked"] => flag t "a non-blocking call blocked"
     | ["lost-loader"] => flag t "loader did not reach its next point"
+    | ["err-other"] => flag t "a call failed with an error other than ErrQueueIsFull / ErrQueueIsEmpty / timeout"
+    | ["empty"] | ["none"] =>
+      -- pool + in-flight ≤ b (C07_bound): with more than b values held the channel is not empty
+      if t.held > b ∧ cap > 0 then flag t s!"reported empty although {t.held} values are held (at most {b} can be outside the channel)" else t
     | _ => t
+  -- the loader (or a consumer) that never arrives = a lost wake-up / a blocked call, wherever it is reported
+  let t := if words0.contains "lost-loader" ∨ words0.contains "lost-consumer" ∨ words0.contains "stuck" then
+      flag t "the loader / a consumer did not reach its next point (lost wake-up or blocked call)" else t
+  let t := if words0.contains "offer=panic" ∨ words0.contains "take=panic" ∨ words0.contains "offer=err-other" ∨
+      words0.contains "offer=closed" ∨ words0.contains "take=closed" ∨ words0.contains "take=err-other" then
+      flag t "a joined call panicked or failed with an error the open queue does not permit" else t
   -- a pending Offer completes with the pass
   let t := if words.contains "offer=nil" then
       (match t.pendingV with | some v => { accept t v with pendingV := none } | none => t)
@@ -446,12 +509,32 @@ def trackObs (cap b : Nat) (t : Track) (op obs : String) : Track :=
      | none => flag t "unparsable value")
   | none => t
 
+/-- the outcomes a step of a directed schedule may have on an OPEN queue (Offer fails only with ErrQueueIsFull, Poll
+    only with ErrQueueIsEmpty, TakeWithTimeout only with the timeout, Take not at all, …) -/
+def schedResultOk (op obs : String) : Bool :=
+  let w := ((obs.splitOn " ").filter (· ≠ "")).headD ""
+  let k := (op.splitOn ":").headD ""
+  w == "skip" ||
+  (match k with
+   | "o" => w == "nil" || w == "full" || w == "pending"
+   | "p" => w == "ok" || w == "empty"
+   | "t" => w == "ok" || w == "timeout"
+   | "T" => w == "ok"
+   | "r" => w == "ok" || w == "none"
+   | "n" => w == "n"
+   | "B" => w == "started"
+   | "L" => w == "polled" || w == "pass-done"
+   | "S" => w == "moved" || w == "unshift"
+   | _ => false)
+
 def judgeSeq (cap b : Nat) (body impl : String) : String :=
   let ops := splitOps body
   let obs := (impl.splitOn "|").map (fun t => t.trimAscii.toString)
   if impl == "hang" ∨ impl == "crash" ∨ impl == "panic" then s!"violation {impl}" else
   if ops.length ≠ obs.length then "violation malformed observation" else
-  let t := (ops.zip obs).foldl (fun t (p : String × String) => trackObs cap b t p.1 p.2) ({} : Track)
+  let t := (ops.zip obs).foldl (fun t (p : String × String) =>
+    let t := trackObs cap b t p.1 p.2
+    if schedResultOk p.1 p.2 then t else flag t s!"'{p.2}' is not a permitted outcome of step '{p.1}' on an open queue") ({} : Track)
   match t.verdict with
   | some why => "violation " ++ why
   | none => "allowed FIFO / exactly-once / bounds / Count hold on this observation"
